@@ -109,6 +109,38 @@ theorem do_modifier_fires (P : Code) (o : Owner) (t fuel : Nat) (inner rest : St
     | beh a => simp [h]
   · rename_i l h; rw [h] at hsome; simp at hsome
 
+/-- **`do … for/until` in a compose block.**  When the condition of an enclosing `do S for/until`
+    holds at the resumption of a compose block (and no condition further out does), nothing of the
+    block runs: the coroutine hands `stopSubs` to the scenario, which stops the running
+    sub-scenarios and continues with the statement that follows (`compose_stopSubs`). -/
+theorem do_modifier_fires_compose (P : Code) (i t fuel : Nat) (inner rest : Stack) (g : Guard)
+    (hg : g.fires P t = true) (hout : ∀ g', Frame.guard g' ∈ rest → g'.fires P t = false) :
+    resume P (.comp i) t fuel (inner ++ Frame.guard g :: rest)
+      = ⟨(scan P (.comp i) t (inner ++ Frame.guard g :: rest)).1, .stopSubs rest⟩ := by
+  have hsome : (scan P (.comp i) t (inner ++ Frame.guard g :: rest)).2 = some rest := by
+    induction inner with
+    | nil =>
+      simp only [List.nil_append]
+      unfold scan
+      have := (scan_none_iff P (.comp i) t rest).mpr hout
+      split
+      · rename_i l r h; rw [h] at this; simp at this
+      · simp [hg]
+    | cons f tl ih =>
+      simp only [List.cons_append]
+      unfold scan
+      split
+      · rename_i l r h; rw [h] at ih; simpa using ih
+      · rename_i l h; rw [h] at ih; simp at ih
+  unfold resume
+  split
+  · rename_i l r h
+    rw [h] at hsome
+    simp only [Option.some.injEq] at hsome
+    subst hsome
+    simp [h]
+  · rename_i l h; rw [h] at hsome; simp at hsome
+
 /-- while no enclosing condition holds, the coroutine simply continues where it was suspended -/
 theorem do_modifier_holds (P : Code) (o : Owner) (t fuel : Nat) (s : Stack)
     (hall : ∀ g, Frame.guard g ∈ s → g.fires P t = false) :
